@@ -550,8 +550,9 @@ class ChirpZTransformExecutor:
             self.components[key]
         except KeyError:
             m, n, M, N, K, L, alphay, alphax, shifty, shiftx, dtype, norm = key
-            Hrow, brow, arow = _prepare_czt_basis(m, M, K, shiftx, alphax, dtype, norm)
-            Hcol, bcol, acol = _prepare_czt_basis(n, N, L, shifty, alphay, dtype, norm)
+            # rows (axis 0) are sampled with alphay = 1/(m Qy), columns (axis 1) with alphax = 1/(n Qx)
+            Hrow, brow, arow = _prepare_czt_basis(m, M, K, shiftx, alphay, dtype, norm)
+            Hcol, bcol, acol = _prepare_czt_basis(n, N, L, shifty, alphax, dtype, norm)
             # those are all vectors, now add singleton dimensions for numpy
             # to broadcast correctly in the following steps
             brow = brow[:, np.newaxis]
@@ -593,7 +594,9 @@ def _prepare_czt_basis(N, M, K, shift, alpha, dtype, norm=False):
     h = np.zeros(K, dtype=dtype)
 
     # need to populate h piecewise, see Jurling2014 48c, 48d
-    start = -((N - M) // 2) + shift
+    # index of the first output sample relative to the first input sample: both grids put
+    # their origin at n//2 (fftrange), so the offset is N//2 - M//2 for every parity combination
+    start = -(N//2 - M//2) + shift
     j = np.arange(-start, -start+M, dtype=dtype)  # do not need a "-1" because arange is naturally end-exclusive
     # j is an index variable
     h[:M] = np.pi * (j * j)
